@@ -4,7 +4,7 @@
    two-fault cases (two slots of one base); Randoms random-byte cases.                                          *)
 EXTENDS FaultGrammar, Json, IOUtils
 
-CONSTANTS Stride, Pairs, Randoms
+CONSTANTS Stride, Pairs, Randoms, NBombs
 BaseRecs == ndJsonDeserialize(IOEnv.BASES)
 B(i) == [name |-> BaseRecs[i].name, nslots |-> BaseRecs[i].nslots, classes |-> BaseRecs[i].classes, ntails |-> BaseRecs[i].ntails, nbodies |-> BaseRecs[i].nbodies]
 Emit(b, fs) == PrintT(<<"REPLAY", ToJson([base |-> b.name, faults |-> fs])>>)
@@ -31,6 +31,7 @@ MCInit == done = FALSE /\ Init
 MCNext == /\ ~done
           /\ \A bi \in 1..Len(BaseRecs) : LET b == B(bi) IN SlotCases(b, bi) /\ StructCases(b, bi) /\ KeywordCases(b, bi) /\ PairCases(b, bi) /\ TailCases(b) /\ BodyCases(b)
           /\ RandomCases(B(1))
+          /\ \A i \in 1..NBombs : Emit(B(1), <<[k |-> "bomb", name |-> BombNames[i]]>>)
           /\ done' = TRUE /\ UNCHANGED <<nfaults, answered>>
 MCSpec == MCInit /\ [][MCNext]_<<done, nfaults, answered>>
 =============================================================================
